@@ -967,7 +967,7 @@ class Filter:
         positional_args, keyword_args = self.evaluate_args(context)
         try:
             return func(left, *positional_args, **keyword_args)
-        except TypeError as err:
+        except (TypeError, ValueError, ArithmeticError) as err:
             raise LiquidTypeError(str(err), token=self.token) from err
         except LiquidTypeError as err:
             err.token = self.token
@@ -979,7 +979,7 @@ class Filter:
 
         try:
             return func(left, *positional_args, **keyword_args)
-        except TypeError as err:
+        except (TypeError, ValueError, ArithmeticError) as err:
             raise LiquidTypeError(f"{self.name}: {err}", token=self.token) from err
         except LiquidTypeError as err:
             err.token = self.token
